@@ -119,6 +119,11 @@ Definition answer (r : lres) : list row := match r with LOk l => l | LErr _ => [
 Definition main_chain (s : store) : list row := orev (chain s (spec_tip s)).
 Definition tip_height (s : store) : Z := Z.of_nat (length (main_chain s)) - 1.
 
+(* The specification functions take the longest chain as a list [mc] (genesis first) so that they can be
+   instantiated both with main_chain (ancestors of the greatest-cumulative-work header: what the statement means,
+   coincides with the labels for positive-work histories) and with tip_chain below (ancestors of the header the
+   repository reports as tip = the rows labelled LONGEST_CHAIN, for every history incl. zero-work headers). *)
+
 (* --- locator: heights H, H-1, .. one block at a time while at most 10 hashes precede, then the gap doubles
    each time (2, 4, 8, ..); the walk is clamped at height 0 and ends there. --- *)
 Definition gap (i : nat) : Z := if Z.of_nat i <=? 10 then 1 else 2 ^ (Z.of_nat i - 10).
@@ -127,25 +132,34 @@ Fixpoint spec_heights (fuel : nat) (i : nat) (h : Z) : list Z :=
   | Datatypes.O => []
   | Datatypes.S f => if h <=? 0 then [0] else h :: spec_heights f (Datatypes.S i) (h - gap i)
   end.
-(* the main-chain header at height h (main_chain is genesis first and has consecutive heights) *)
-Definition at_height (s : store) (h : Z) : N :=
-  match nth_error (main_chain s) (Z.to_nat h) with Some r => id r | None => 0%N end.
-Definition spec_locator (s : store) : list N :=
-  map (at_height s) (spec_heights (length (main_chain s)) Datatypes.O (tip_height s)).
+(* the chain header at height h (mc is genesis first and has consecutive heights) *)
+Definition at_height_mc (mc : list row) (h : Z) : N :=
+  match nth_error mc (Z.to_nat h) with Some r => id r | None => 0%N end.
+Definition spec_locator_mc (mc : list row) : list N :=
+  map (at_height_mc mc) (spec_heights (length mc) Datatypes.O (Z.of_nat (length mc) - 1)).
 
 (* --- getheaders answer --- *)
 (* the genesis block: the first row of the table *)
 Definition genesis_id (s : store) : N := match orev s with g :: _ => id g | [] => 0%N end.
-(* height of the highest locator entry that is on the main chain; 0 (genesis) if none is *)
-Definition anchor (s : store) (locs : list N) : Z :=
-  fold_left (fun a r => if memN (id r) locs then height r else a) (main_chain s) 0.
-Definition spec_locate (s : store) (locs : list N) (stop : N) : list row :=
-  let mc := main_chain s in
-  let a := anchor s locs in
+(* height of the highest locator entry that is on the chain; 0 (genesis) if none is *)
+Definition anchor_mc (mc : list row) (locs : list N) : Z :=
+  fold_left (fun a r => if memN (id r) locs then height r else a) mc 0.
+Definition spec_locate_mc (mc : list row) (locs : list N) (stop : N) : list row :=
+  let a := anchor_mc mc locs in
   let following := filter (fun r => a <? height r) mc in         (* ascending, parent-linked *)
   match find (fun r => N.eqb (id r) stop) mc with
-  | Some x =>                                                      (* the stop hash is on the main chain *)
+  | Some x =>                                                      (* the stop hash is on the chain *)
     if height x <=? a then []                                      (* at or below the start: nothing *)
     else firstn (Z.to_nat cap) (filter (fun r => height r <=? height x) following)
   | None => firstn (Z.to_nat cap) following
   end.
+
+(* instantiated with the greatest-cumulative-work chain *)
+Definition at_height (s : store) : Z -> N := at_height_mc (main_chain s).
+Definition spec_locator (s : store) : list N := spec_locator_mc (main_chain s).
+Definition anchor (s : store) : list N -> Z := anchor_mc (main_chain s).
+Definition spec_locate (s : store) : list N -> N -> list row := spec_locate_mc (main_chain s).
+
+(* the chain of the header the repository reports as tip (sqlSelectTip): label based, any history *)
+Definition tip_chain (s : store) : list row :=
+  match tipB s with Some t => orev (chain s (id t)) | None => [] end.
